@@ -52,7 +52,14 @@ static long do_wait(int kind, uint64_t tmo_ns)
 {
 	dispatch_time_t t = kind == 0 ? DISPATCH_TIME_FOREVER : kind == 1 ? DISPATCH_TIME_NOW : 0;
 	uint64_t t0 = now_ns();
-	if (kind == 2) t = dispatch_time(DISPATCH_TIME_NOW, (int64_t)tmo_ns);
+	if (kind == 2) {
+		/* the timeout on each of the three clocks (the deadline conversion differs per clock: finding F7) */
+		switch (vrt_rand() % 3) {
+		case 0: t = dispatch_time(DISPATCH_TIME_NOW, (int64_t)tmo_ns); break;
+		case 1: t = dispatch_walltime(NULL, (int64_t)tmo_ns); break;
+		default: t = dispatch_time((dispatch_time_t)(1ull << 63) /* DISPATCH_MONOTONICTIME_NOW (private/time_private.h) */, (int64_t)tmo_ns); break;
+		}
+	}
 	vrt_api("CallWait", g_obj, kind, 0, 0);
 	/* any wait may block indefinitely: a poll or timed wait that loses the undo race to a concurrent signal
 	 * falls into the untimed kernel wait ("drain the wakeup") and needs a permit if another waiter took the
